@@ -383,6 +383,13 @@ fn to_bytecode_mut(
         })
         .collect::<BTreeMap<String, u64>>();
 
+    #[cfg(fuellabs_sway_verif)]
+    crate::verif_hooks::data_section_dump(
+        data_section,
+        ops.iter().map(|op| op_size_in_bytes(data_section, op)).collect(),
+        offset_to_data_section_in_bytes,
+        &named_data_section_entries_offsets,
+    );
     let mut data_section = data_section.serialize_to_bytes();
     bytecode.append(&mut data_section);
 
